@@ -158,7 +158,8 @@ def c03_cases():
                     mm = 0 if c01_needs_create(pre, op) else 2
                     tier = "quick" if ((pre, op) in quick and c03_quick_pick(kn, pre, op, dd)) else ("thorough" if c01_cost_class(kn, pre, op, dd) == "cheap" else "full")
                     name = "c03_step_%s_p%d_o%02d_d%d" % (kn, pre, op, dd)
-                    call = "c03_step(%s, %s, %d, %d, %d, %d)" % (B[d], B[m], pre, op, dd, mm)
+                    sl = 1 if (op == 2 and pre != 4) else 0   # a fresh self-loop is checked with self-loops allowed (conditional storage: > 24 GB)
+                    call = "c03_step(%s, %s, %d, %d, %d, %d, %d)" % (B[d], B[m], pre, op, dd, mm, sl)
                     out.append((name, call, tier, [], "kind=%s pre-state #%d then add_edge #%d, dedupe=%d; 8 remaining policy combinations and f64 weights symbolic (uniformly weighted or unweighted)" % (kn, pre, op, dd)))
     return out
 
